@@ -184,6 +184,9 @@ class KroneckerProductLinearOperator(LinearOperator):
         return KroneckerProductTriangularLinearOperator(*chol_factors, upper=upper)
 
     def _diagonal(self: Float[LinearOperator, "... M N"]) -> Float[torch.Tensor, "... N"]:
+        if not all(lt.is_square for lt in self.linear_ops):
+            # diag(A \kron B) = diag(A) \kron diag(B) holds for square factors only
+            return super()._diagonal()
         return _kron_diag(*self.linear_ops)
 
     def _expand_batch(
